@@ -2,7 +2,7 @@
    Only property theorems here; proofs are in Proofs/EvalP.v. *)
 From Coq Require Import ZArith QArith List.
 From Dyce Require Import Base.Sums Base.Order Base.Hist Base.QcOrd Model.Select Model.Pool Model.Equality
-  Model.Eval Model.Explode Proofs.EvalP Proofs.EqualityP.
+  Model.Eval Model.Explode Proofs.EvalP Proofs.EqualityP Proofs.SourcesP Base.Brute.
 Import ListNotations.
 Open Scope Z_scope.
 
@@ -66,6 +66,37 @@ Proof. intros T O h H. split; [apply heq_lowest; exact H|]. split; [apply lowest
 Print Assumptions C06_result_in_lowest_terms.
 (* Pool sources present each sorted (selected) roll with its exact count: [branches] takes them from
    [rwc], which is brute force by C02_all_rolls / C02_selected_rolls. *)
+
+(* the branch list itself, against brute force: every linear functional of the weighted branches is the
+   nested brute-force sum over the sources (faces with their counts / all ordered rolls of the Cartesian
+   product of the dice, sorted, restricted to the selected positions) *)
+Theorem C06_branches_are_brute_force : forall {T} (O : ord T) (pad : T) srcs bs (F : list (result (T:=T)) -> Z),
+  Forall (src_ok O) srcs -> branches O pad srcs = Ok bs ->
+  lsum (fun b => snd b * F (fst b)) bs = srcs_sum O srcs F.
+Proof. exact @branches_sum. Qed.
+Print Assumptions C06_branches_are_brute_force.
+Theorem C06_branches_defined : forall {T} (O : ord T) (pad : T) srcs,
+  Forall (src_ok O) srcs -> exists bs, branches O pad srcs = Ok bs.
+Proof. exact @branches_ok. Qed.
+Print Assumptions C06_branches_defined.
+(* the weights of the branches add up to the product of the sources' totals: the denominator of the
+   branch precision (C07) *)
+Theorem C06_branch_weights_total : forall {T} (O : ord T) (pad : T) srcs bs,
+  Forall (src_ok O) srcs -> Forall src_nonempty_sel srcs ->
+  branches O pad srcs = Ok bs -> lsum snd bs = srcs_total srcs.
+Proof. exact @branches_total. Qed.
+Print Assumptions C06_branch_weights_total.
+(* foreach with an arbitrary non-recursive callback, stated against brute force with the count of
+   every outcome of the unreduced aggregate spelled out *)
+Theorem C06_foreach_against_brute_force : forall {T} (O : ord T) (pad : T) fuel srcl sent
+  (cbv : list (result (T:=T)) -> val (T:=T)) r,
+  (1 <= fuel)%nat -> Forall (src_ok O) srcl ->
+  foreach O pad fuel srcl sent (fun rs => ret_of_val (cbv rs)) None = Ok r ->
+  exists bs h, branches O pad srcl = Ok bs /\ r = lowest O h /\
+    (forall z, cnt O h z = mixsum (fun v => vcnt O v z) (map (fun b => (cbv (fst b), snd b)) bs)) /\
+    (forall F, lsum (fun b => snd b * F (fst b)) bs = srcs_sum O srcl F).
+Proof. exact @foreach_count_against_brute_force. Qed.
+Print Assumptions C06_foreach_against_brute_force.
 
 Example C06_nonvacuous :
   exists h, aggw VO [(VOut (qc 1 1), 1); (VHist [(qc 1 1, 1); (qc 2 1, 2)], 2); (VHist [], 5)] = Ok h /\
